@@ -4,7 +4,19 @@ Generated input: small APKs (zipfile) with AndroidManifest.xml (minSdkVersion ab
 META-INF/MANIFEST.MF, META-INF/X.SF and META-INF/X.RSA|EC|DSA where the signature block is a PKCS#7 SignedData built by
 the independent writer vf/gen/cms.py (cross-checked against `openssl cms -verify`; the APKs pass `jarsigner -verify`)
 from the committed key pool: RSA-2048 / EC P-256 / DSA-2048 x SHA-1 / SHA-256 x {no signed attributes, contentType +
-messageDigest, + signingTime} x 1-2 SignerInfos.
+messageDigest, + signingTime} x 1-2 SignerInfos; and APKs with SEVERAL signature files (one X.SF + X.RSA|EC|DSA pair per
+signer) whose base names X range over letters, digits, '-', '_' and dots (CERT, RELEASE.2024, a.b.c, ANDROID-1), including
+names that are a dot-prefix of one another (RELEASE / RELEASE.2024), with byte-identical or signer-specific .SF contents.
+The .SF that belongs to a block is the one with the same name up to the LAST dot (JAR signing convention; apksig's
+V1SchemeVerifier, which get_certificate_der's docstring refers to, pairs by lastIndexOf('.')). Only upper-case
+.RSA/.EC/.DSA/.SF directly in META-INF/ are generated (what the unchanged code treats as a signature block).
+
+max_sdk_version: get_certificate_der(filename, max_sdk_version=None) is documented as "an optional integer parameter for
+the max sdk version"; the only thing the code ties to it is the contentType comparison ("for Android N and newer").
+None of the faults below is re-signed, so every one of them must yield no certificate at every platform level, and the
+unmodified file (contentType = id-data, as required) must report the signer at every level. Each case is evaluated with
+the default call and with explicit values below / at / above 24 (18, 21, 23 / 24, 28, None): all of them for the
+unmodified files and the semantic faults, one rotating value (alternately < 24 and >= 24) for the byte faults in the quick tier.
 
 Oracle
   unmodified  -> get_certificate_der(X) is exactly the DER of the signer's certificate (of one of the two signers when
@@ -12,7 +24,9 @@ Oracle
                  get_certificates, and X is listed by get_signature_names;
   one fault   -> no certificate is reported for the faulted signer: the result is None (an exception also reports
                  nothing: counted, not a violation) or - with two SignerInfos - the certificate of a signer whose
-                 signature was left intact. Faults are restricted to the four things the statement names:
+                 signature was left intact. With several signature files the fault is applied to ONE signer's files:
+                 that block reports nothing, every other block (its own .SF and block untouched) still reports exactly
+                 its signer's certificate. Faults are restricted to the four things the statement names:
      .SF                 every byte position xor k masks
      signature value     every byte position xor k masks
      signed attributes   messageDigest changed; signingTime changed/removed/added; unknown attribute added;
@@ -37,26 +51,48 @@ LEVEL = 'fault_enumeration'
 RULE = ('54 signing configurations (RSA/EC/DSA x SHA-1/SHA-256 x no attrs/attrs/attrs+signingTime x 1 signer [minSdk '
         'absent/21/24] or 2 signers [minSdk 21 and 24]); per configuration the unmodified APK, every byte position of the '
         '.SF and of every signature value xor k masks (quick: 3 masks for one signer, 1 rotating single-bit mask for two; '
-        'thorough: 8 single-bit masks + 0xff), and the semantic faults of signed attributes and certificate reference; plus '
-        'Hypothesis-drawn configurations (mixed key kinds, file names, extra entries, any mask/position). non-trivial = a '
-        'fault applied to an APK whose unmodified form reports the signer certificate (or that unmodified form itself); '
-        'distinct = (configuration, fault)')
+        'thorough: 8 single-bit masks + 0xff), and the semantic faults of signed attributes and certificate reference; 20 '
+        'multi-signer configurations (10 sets of 1-3 signature-file base names with dots/dashes/digits/mixed case and '
+        'dot-prefix relations x identical / signer-specific .SF contents) with the same fault families applied to each '
+        "signer's files separately (byte positions sampled); every case is evaluated through get_certificate_der with the "
+        'default and with explicit max_sdk_version values 18/21/23/24/28/None (byte faults, quick: default + one rotating '
+        'explicit value, alternately < 24 and >= 24); plus Hypothesis-drawn configurations (mixed key kinds, dotted file names, prefix-related '
+        'co-signers, extra entries, any mask/position/max_sdk_version). non-trivial = a fault applied to an APK whose '
+        'unmodified form reports the signer certificates (or that unmodified form itself); distinct = (configuration, '
+        'faulted signature file, fault)')
 ASSUMPTIONS = ['vf/gen/cms.py (RFC 5652 SignedData, detached content) and vf/gen/v1apk.py are the trusted writers; cms.py is '
                'cross-checked with `openssl cms -verify` by tools/mkkeys.py --selftest, generated APKs verify with jarsigner',
                'fixtures/keys/*: committed test keys (tools/mkkeys.py); ECDSA/DSA signatures are randomised, so signature '
                'bytes differ from run to run while positions, masks and expected outcomes do not (replay files hold the bytes)',
                'an exception raised for a faulted file reports no certificate: counted in counters.fault_raised:*, not a violation',
                'a one-byte change of an ECDSA/DSA DER signature or an RSA signature never yields another valid signature '
-               '(probability ~2^-128)']
+               '(probability ~2^-128)',
+               'the .SF matching META-INF/X.RSA|EC|DSA is META-INF/X.SF with X = everything before the last dot (JAR signing '
+               'convention / apksig V1SchemeVerifier); only upper-case extensions directly under META-INF/ are generated',
+               'max_sdk_version only selects whether the contentType attribute is compared (code comment "for Android N and '
+               'newer"); no generated fault is re-signed and intact files carry contentType = id-data, so the expected '
+               'outcome does not depend on it']
 EXHAUSTIVE = False
 
 UNKNOWN_ATTR_OID = '1.3.6.1.4.1.99999.32.1'
 MASKS1_QUICK = (0x01, 0x80, 0xff)
 MASKS_THOROUGH = (1, 2, 4, 8, 16, 32, 64, 128, 0xff)
 ATTRMODES = ('noattrs', 'attrs', 'attrs+time')
+DEFAULT = 'default'                 # get_certificate_der(name) without the optional argument
+SDK_LOW = (18, 21, 23)              # explicit max_sdk_version below Android N
+SDK_HIGH = (24, 28, None)           # at / above N, and None passed explicitly
+SDK_ALL = (DEFAULT,) + SDK_LOW + SDK_HIGH
+
+
+def sdk_rot(i):
+    return [DEFAULT, (SDK_LOW[(i // 2) % 3], SDK_HIGH[(i // 2) % 3])[i % 2]]
 
 
 # -- configurations ------------------------------------------------------------------------------
+# mcfg = {files: [{signers: [(kind, who, digest, attrmode)], base, rsa_generic, sf_by}], min_sdk, deflate, created_by,
+#         extra: [(name, bytes)], order}     one entry of `files` = one signature file pair META-INF/<base>.SF + .<EXT>
+# sf_by: Created-By of that signer's .SF (None: the manifest's; all .SF files of the APK are then byte-identical when
+# the digests agree, as they are when one tool signs with several keys)
 
 def configs():
     out = []
@@ -64,34 +100,61 @@ def configs():
     for kind in G.KINDS:
         for digest in G.DIGESTS:
             for am in ATTRMODES:
-                out.append(dict(signers=[(kind, 'a', digest, am)], min_sdk=(None, 21, 24)[k % 3], rsa_generic=bool(k % 2),
-                                deflate=bool((k // 2) % 2), base='CERT', created_by='1.0 (Android)', extra=[]))
+                out.append(dict(files=[dict(signers=[(kind, 'a', digest, am)], base='CERT', rsa_generic=bool(k % 2), sf_by=None)],
+                                min_sdk=(None, 21, 24)[k % 3], deflate=bool((k // 2) % 2), created_by='1.0 (Android)',
+                                extra=[], order=0))
                 for ms in (21, 24):
-                    out.append(dict(signers=[(kind, 'a', digest, am), (kind, 'b', digest, am)], min_sdk=ms,
-                                    rsa_generic=not (k % 2), deflate=False, base='CERT', created_by='1.0 (Android)', extra=[]))
+                    out.append(dict(files=[dict(signers=[(kind, 'a', digest, am), (kind, 'b', digest, am)], base='CERT',
+                                               rsa_generic=not (k % 2), sf_by=None)],
+                                    min_sdk=ms, deflate=False, created_by='1.0 (Android)', extra=[], order=0))
                 k += 1
     return out
 
 
-def cfg_key(cfg):
-    return '%s|%s|%s|%s|%s|%s|%s' % (','.join('%s-%s-%s-%s' % tuple(s) for s in cfg['signers']), cfg['min_sdk'],
-                                     int(cfg['rsa_generic']), int(cfg['deflate']), cfg['base'], cfg['created_by'],
-                                     len(cfg['extra']))
+# base names of the signature files of one APK (every name is its own signer)
+NAMESETS = (('RELEASE', 'RELEASE.2024'), ('RELEASE.2024',), ('a', 'a.b', 'a.b.c'), ('ANDROID-1', 'CERT'),
+            ('com.example.OLD', 'com.example.NEW'), ('CERT.1', 'CERT'), ('my-app', 'my-app.release'),
+            ('1', '1.0', '1.0.1'), ('Key_0', 'KEY_0.v2-rc.1'), ('X.Y',))
+
+
+def multi_configs():
+    out = []
+    for k, names in enumerate(NAMESETS):
+        for same in (True, False):
+            files = []
+            for i, name in enumerate(names):
+                kind = G.KINDS[(k + i) % 3]                 # distinct kinds -> distinct certificates per signer
+                digest = G.DIGESTS[k % 2] if same else G.DIGESTS[(k + i) % 2]
+                am = ATTRMODES[(k + i + (0 if same else 1)) % 3]
+                files.append(dict(signers=[(kind, 'ab'[(k + i) % 2], digest, am)], base=name, rsa_generic=bool((k + i) % 2),
+                                  sf_by=None if same else '1.%d (vf c32 signer %d)' % (k, i)))
+            out.append(dict(files=files, min_sdk=(None, 21, 24, 30)[(k + (0 if same else 2)) % 4], deflate=bool(k % 2),
+                            created_by='1.0 (Android)', extra=[], order=(2 * k + (0 if same else 1)) % 4))
+    return out
+
+
+def file_key(f):
+    return '%s|%s|%s|%s' % (','.join('%s-%s-%s-%s' % tuple(s) for s in f['signers']), int(f['rsa_generic']), f['base'],
+                            '' if f['sf_by'] is None else f['sf_by'])
+
+
+def cfg_key(mcfg):
+    return '%s|%s|%s|%s|%s|%s' % (';'.join(file_key(f) for f in mcfg['files']), mcfg['min_sdk'], int(mcfg['deflate']),
+                                  mcfg['created_by'], len(mcfg['extra']), mcfg['order'])
 
 
 class Base:
-    """One signed APK in abstract form: skeleton + .SF + signer parts + certificate list."""
+    """One signature file pair (X.SF + X.RSA|EC|DSA with 1-2 SignerInfos) in abstract form: .SF + signer parts +
+    certificate list."""
 
-    def __init__(self, cfg):
+    def __init__(self, fcfg, sf):
         pool = G.load_pool()
-        self.cfg = cfg
-        first = cfg['signers'][0]
-        self.sk = v1apk.Skeleton(min_sdk=cfg['min_sdk'], digest=first[2], base=cfg['base'], created_by=cfg['created_by'],
-                                 extra=[(n, d) for n, d in cfg['extra']])
-        self.sf = self.sk.sf
+        self.cfg = fcfg
+        first = fcfg['signers'][0]
+        self.sf = sf
         self.ext = G.EXT[first[0]]
-        self.specs = [G.SignerSpec(kind, who, digest, am != 'noattrs', am == 'attrs+time', cfg['rsa_generic'])
-                      for kind, who, digest, am in cfg['signers']]
+        self.specs = [G.SignerSpec(kind, who, digest, am != 'noattrs', am == 'attrs+time', fcfg['rsa_generic'])
+                      for kind, who, digest, am in fcfg['signers']]
         self.parts = [G.parts(pool, sp, self.sf) for sp in self.specs]
         self.signer_certs = [pool[sp.kind][sp.who].cert_der for sp in self.specs]
         self.certs = []
@@ -99,11 +162,12 @@ class Base:
             if c not in self.certs:
                 self.certs.append(c)
         self.pool = pool
-        self.sig_name = 'META-INF/%s.%s' % (cfg['base'], self.ext)
+        self.sig_name = 'META-INF/%s.%s' % (fcfg['base'], self.ext)
+        self.sf_name = v1apk.sf_name_of(self.sig_name)
 
-    def apk(self, sf=None, parts=None, certs=None):
+    def entries(self, sf=None, parts=None, certs=None):
         block = G.render(self.parts if parts is None else parts, self.certs if certs is None else certs)
-        return self.sk.apk(self.sf if sf is None else sf, block, self.ext, self.cfg['deflate'])
+        return (self.sf_name, self.sf if sf is None else sf), (self.sig_name, block)
 
     def other(self, k):
         """(cert DER, issuer Name, serial) of a certificate of the pool that is not signer k's."""
@@ -112,6 +176,49 @@ class Base:
         der = self.pool[sp.kind][who].cert_der
         c = G.ax509.Certificate.load(der)
         return der, c.issuer, c.serial_number
+
+    def tag(self):
+        s = self.cfg['signers']
+        return '%s:%s:%s' % (s[0][0], 'attrs' if s[0][3] != 'noattrs' else 'noattrs', 'n%d' % len(s))
+
+
+class Multi:
+    """One APK: skeleton + one Base per signature file."""
+
+    def __init__(self, mcfg):
+        self.cfg = mcfg
+        files = mcfg['files']
+        names = [f['base'].upper() for f in files]
+        assert len(set(names)) == len(names), names
+        self.sk = v1apk.Skeleton(min_sdk=mcfg['min_sdk'], digest=files[0]['signers'][0][2], base=files[0]['base'],
+                                 created_by=mcfg['created_by'], extra=[(n, d) for n, d in mcfg['extra']])
+        self.blocks = [Base(f, self.sk.signature_file(f['signers'][0][2], mcfg['created_by'] if f['sf_by'] is None else f['sf_by']))
+                       for f in files]
+        self.unmodified = [b.entries() for b in self.blocks]     # rendered once: most faults touch one file only
+
+    def apk(self, j=None, sf=None, parts=None, certs=None):
+        """The APK with the files of block j replaced by their faulted form (j None: unmodified)."""
+        pairs = list(self.unmodified)
+        if j is not None:
+            pairs[j] = self.blocks[j].entries(sf, parts, certs)
+        order = self.cfg['order']
+        if order == 0:
+            meta = [e for p in pairs for e in p]                            # X.SF, X.RSA, Y.SF, Y.EC (signing tools)
+        elif order == 1:
+            meta = [e for p in pairs for e in (p[1], p[0])]                 # block before its .SF
+        elif order == 2:
+            meta = [p[0] for p in pairs] + [p[1] for p in reversed(pairs)]  # all .SF, then the blocks reversed
+        else:
+            meta = [p[1] for p in reversed(pairs)] + [p[0] for p in pairs]  # all blocks, then the .SF files
+        return self.sk.apk_multi(meta, self.cfg['deflate'])
+
+    def tag(self, j=0):
+        """bucket suffix: key kind / attributes / SignerInfos for the plain single CERT-like file; for several signature
+        files or dotted base names the name pairing is the feature of interest: coarse class only"""
+        names = [f['base'] for f in self.cfg['files']]
+        if len(names) == 1 and '.' not in names[0]:
+            return self.blocks[0].tag()
+        return 'names:' + self.blocks[j].tag().split(':')[1]
 
 
 def xor_at(b, pos, mask):
@@ -132,16 +239,17 @@ def _attr_index(attrs, name):
 
 
 # -- faults --------------------------------------------------------------------------------------
-# a fault = (family, descriptor, sf, parts, certs, broken) ; broken = indices of the signers whose signature it invalidates
+# a fault = (family, descriptor, sf, parts, certs, broken) on ONE signature file pair (a Base);
+# broken = indices of the SignerInfos of that block whose signature it invalidates
 
-def byte_faults(base, masks_for):
+def byte_faults(base, masks_for, sf_step=1, sig_step=1):
     n = len(base.parts)
-    for pos in range(len(base.sf)):
+    for pos in range(0, len(base.sf), sf_step):
         for m in masks_for(pos):
             yield ('sf-byte', (pos, m), xor_at(base.sf, pos, m), None, None, set(range(n)))
     for k in range(n):
         sig = base.parts[k]['signature']
-        for pos in range(len(sig)):
+        for pos in range(0, len(sig), sig_step):
             for m in masks_for(pos):
                 yield ('sig-byte', (k, pos, m), None, with_part(base.parts, k, signature=xor_at(sig, pos, m)), None, {k})
 
@@ -214,17 +322,27 @@ def semantic_faults(base):
 
 # -- oracle on concrete bytes --------------------------------------------------------------------
 
+def _sdk_tag(sdk):
+    return '' if sdk == DEFAULT else ':sdk=None' if sdk is None else ':sdk<24' if sdk < 24 else ':sdk>=24'
+
+
 def evaluate(ctx, case, full=True):
-    """case: {'apk': bytes, 'sig_name': str, 'positive': bool (unmodified file), 'allowed': [cert DER], 'family': str,
-    'tag': str (bucket suffix), 'desc': str}.
-    positive: exactly one certificate is reported and it is one of `allowed` (the signers' certificates; SignerInfos
-    are a DER SET OF, so which of two valid signers comes first is an encoding matter the statement does not fix).
-    fault: nothing or only certificates of `allowed` (signers left intact) are reported."""
+    """case: {'apk': bytes, 'blocks': [{'sig_name': str, 'intact': bool, 'allowed': [cert DER]}], 'sdk': [max_sdk_version
+    values, 'default' = argument omitted], 'positive': bool (unmodified file), 'family', 'tag' (bucket suffix), 'desc'}.
+    intact block (its .SF, signature, attributes, certificate reference untouched): exactly one certificate is reported
+    for it and it is one of `allowed` (the signers' certificates; SignerInfos are a DER SET OF, so which of two valid
+    signers comes first is an encoding matter the statement does not fix).
+    faulted block: nothing or only a certificate of `allowed` (SignerInfos left intact) is reported.
+    (replay files written before the several-files generalisation have sig_name/allowed/positive at top level)"""
     from androguard.core.apk import APK
     positive = bool(case.get('positive'))
-    allowed = list(case['allowed'])
+    blocks = case.get('blocks')
+    if blocks is None:
+        blocks = [dict(sig_name=case['sig_name'], intact=positive, allowed=list(case['allowed']))]
+    sdks = list(case.get('sdk') or [DEFAULT])
     fam = case['family']
     tag = case['tag']
+    union = [c for b in blocks for c in b['allowed']]
     try:
         a = APK(case['apk'], raw=True)
     except Exception:
@@ -233,52 +351,101 @@ def evaluate(ctx, case, full=True):
             return
         raise HarnessError('APK() raised on a generated zip (fault %s %s):\n%s' % (fam, case.get('desc'), traceback.format_exc()))
 
-    def reported(what, certs):
+    def reported(what, certs, allowed):
         for c in certs:
             ctx.check(c in allowed, 'reported-after-fault:%s:%s' % (fam, tag), case,
                       '%s: %s reports a certificate (%s) although the %s was altered and nothing was re-signed' % (
                           case.get('desc'), what, _cn(c), fam))
 
-    # 1. get_certificate_der
-    try:
-        r = a.get_certificate_der(case['sig_name'])
-    except Exception as e:
-        r = None
-        if positive:
-            ctx.fail('positive:exception:%s' % tag, case, 'get_certificate_der raised on a validly signed APK\n' + traceback.format_exc()[-1200:])
-            return
-        ctx.count('fault_raised:%s:%s' % (type(e).__name__, fam))
-    if positive:
-        ctx.check(r is not None and r in allowed, 'positive:get_certificate_der:%s' % tag, case,
-                  '%s: validly signed, get_certificate_der returned %s, expected a signer certificate (%s)' % (
-                      case.get('desc'), 'None' if r is None else _cn(r), [_cn(c) for c in allowed]))
-        try:
-            ctx.check(case['sig_name'] in a.get_signature_names(), 'positive:get_signature_names:%s' % tag, case,
-                      '%s not listed by get_signature_names()' % case['sig_name'])
-            v1 = [c.dump() for c in a.get_certificates_v1()]
-            ctx.check(len(v1) == 1 and v1[0] in allowed, 'positive:get_certificates_v1:%s' % tag, case,
-                      'get_certificates_v1() = %r, expected exactly one signer certificate' % [_cn(c) for c in v1])
-            one = a.get_certificate(case['sig_name'])
-            ctx.check(one is not None and one.dump() in allowed, 'positive:get_certificate:%s' % tag, case,
-                      'get_certificate() does not return the signer certificate')
-            allc = [c.dump() for c in a.get_certificates()]
-            ctx.check(len(allc) == 1 and allc[0] in allowed, 'positive:get_certificates:%s' % tag, case,
-                      'get_certificates() = %r, expected exactly one signer certificate' % [_cn(c) for c in allc])
-        except Exception:
-            ctx.fail('positive:exception:%s' % tag, case, 'certificate API raised on a validly signed APK\n' + traceback.format_exc()[-1200:])
-        return
-    if r is not None:
-        reported('get_certificate_der', [r])
-    if full:
-        for what, fn in (('get_certificates_v1', lambda: [c.dump() for c in a.get_certificates_v1()]),
-                         ('get_certificate', lambda: [c.dump() for c in [a.get_certificate(case['sig_name'])] if c is not None]),
-                         ('get_certificates', lambda: [c.dump() for c in a.get_certificates()])):
+    # 1. get_certificate_der, per block and per max_sdk_version. The bucket names the max_sdk_version class only when the
+    # outcome depends on it (a failure at every level is one root cause, not four).
+    cascade = False
+    for b in blocks:
+        name = b['sig_name']
+        bad = []
+        for sdk in sdks:
+            call = 'get_certificate_der(%r%s)' % (name, '' if sdk == DEFAULT else ', max_sdk_version=%r' % (sdk,))
             try:
-                got = fn()
+                r = a.get_certificate_der(name) if sdk == DEFAULT else a.get_certificate_der(name, max_sdk_version=sdk)
             except Exception as e:
-                ctx.count('fault_raised:%s:%s' % (type(e).__name__, fam))
+                if b['intact']:
+                    bad.append((sdk, 'positive:exception:%s', '%s: %s raised although the block and its .SF are untouched\n%s' % (
+                        case.get('desc'), call, traceback.format_exc()[-1200:])))
+                else:
+                    ctx.count('fault_raised:%s:%s' % (type(e).__name__, fam))
                 continue
-            reported(what, got)
+            if b['intact']:
+                if r is None or r not in b['allowed']:
+                    bad.append((sdk, 'positive:get_certificate_der:%s',
+                                '%s: block and its .SF (%s) untouched, %s returned %s, expected a signer certificate (%s)' % (
+                                    case.get('desc'), v1apk.sf_name_of(name), call, 'None' if r is None else _cn(r),
+                                    [_cn(c) for c in b['allowed']])))
+            elif r is not None and r not in b['allowed']:
+                bad.append((sdk, 'reported-after-fault:' + fam + ':%s',
+                            '%s: %s reports a certificate (%s) although the %s was altered and nothing was re-signed' % (
+                                case.get('desc'), call, _cn(r), fam)))
+        seen = set()
+        classes = {_sdk_tag(x) for x in sdks}
+        for sdk, pattern, msg in bad:
+            bucket = pattern % tag + ('' if len(bad) == len(sdks) and len(classes) > 1 else _sdk_tag(sdk))
+            if bucket not in seen:
+                seen.add(bucket)
+                ctx.fail(bucket, case, msg)
+        cascade = cascade or (b['intact'] and bool(bad))
+    if cascade or (not full and not positive):
+        return          # an untouched block that reports nothing also fails every accessor below: one root cause
+    # 2. the other accessors (they use the default max_sdk_version)
+    intact = [b for b in blocks if b['intact']]
+    aggregate = 'positive' if positive else 'intact-block'
+
+    def represented(what, got):
+        for b in intact:
+            ctx.check(any(c in got for c in b['allowed']), '%s:%s:%s' % (aggregate, what, tag), case,
+                      '%s: %s() = %r lacks the certificate of the untouched block %s (%s)' % (
+                          case.get('desc'), what, [_cn(c) for c in got], b['sig_name'], [_cn(c) for c in b['allowed']]))
+
+    try:
+        names = a.get_signature_names()
+        for b in intact:
+            ctx.check(b['sig_name'] in names, '%s:get_signature_names:%s' % (aggregate, tag), case,
+                      '%s: %s (with %s present) not listed by get_signature_names() = %r' % (
+                          case.get('desc'), b['sig_name'], v1apk.sf_name_of(b['sig_name']), names))
+    except Exception:
+        ctx.fail('positive:exception:%s' % tag, case, 'get_signature_names raised\n' + traceback.format_exc()[-1200:])
+    for b in blocks:
+        try:
+            one = a.get_certificate(b['sig_name'])
+        except Exception as e:
+            if b['intact']:
+                ctx.fail('positive:exception:%s' % tag, case, 'get_certificate(%r) raised although the block and its .SF are '
+                         'untouched\n%s' % (b['sig_name'], traceback.format_exc()[-1200:]))
+            else:
+                ctx.count('fault_raised:%s:%s' % (type(e).__name__, fam))
+            continue
+        if b['intact']:
+            ctx.check(one is not None and one.dump() in b['allowed'], '%s:get_certificate:%s' % (aggregate, tag), case,
+                      '%s: get_certificate(%r) does not return the signer certificate' % (case.get('desc'), b['sig_name']))
+        elif one is not None:
+            reported('get_certificate(%r)' % b['sig_name'], [one.dump()], b['allowed'])
+    for what, fn in (('get_certificates_v1', lambda: [c.dump() for c in a.get_certificates_v1()]),
+                     ('get_certificates', lambda: [c.dump() for c in a.get_certificates()])):
+        try:
+            got = fn()
+        except Exception as e:
+            if positive:
+                ctx.fail('positive:exception:%s' % tag, case, '%s() raised on a validly signed APK\n%s' % (what, traceback.format_exc()[-1200:]))
+            else:
+                ctx.count('fault_raised:%s:%s' % (type(e).__name__, fam))
+            continue
+        if positive:
+            # one certificate per signature block (get_certificates drops repeated certificates)
+            ok = all(c in union for c in got) and (len(got) == len(blocks) if what == 'get_certificates_v1'
+                                                    else 1 <= len(got) <= len(blocks))
+            ctx.check(ok, 'positive:%s:%s' % (what, tag), case, '%s: %s() = %r, expected one signer certificate per block (%r)' % (
+                case.get('desc'), what, [_cn(c) for c in got], [[_cn(c) for c in b['allowed']] for b in blocks]))
+        else:
+            reported(what, got, union)
+        represented(what, got)
 
 
 def _cn(der):
@@ -288,36 +455,55 @@ def _cn(der):
         return 'undecodable %d bytes' % len(der)
 
 
-def tag_of(base):
-    s = base.cfg['signers']
-    return '%s:%s:%s' % (s[0][0], 'attrs' if s[0][3] != 'noattrs' else 'noattrs', 'n%d' % len(s))
+def _labels_of(multi):
+    f0 = multi.cfg['files'][0]['signers'][0]
+    ms = multi.cfg['min_sdk']
+    names = [f['base'] for f in multi.cfg['files']]
+    lab = ['kind:' + f0[0], 'digest:' + f0[2], 'attrs:' + f0[3],
+           'signers:%d' % len(multi.cfg['files'][0]['signers']), 'files:%d' % len(names),
+           'minSdk:' + ('absent' if ms is None else '<24' if ms < 24 else '>=24')]
+    if any('.' in n for n in names):
+        lab.append('name:dotted')
+    if any(m != n and m.startswith(n + '.') for n in names for m in names):
+        lab.append('name:dot-prefix-pair')
+    if len(names) > 1:
+        lab.append('sf:identical' if len({b.sf for b in multi.blocks}) == 1 else 'sf:distinct')
+    return lab
 
 
-def run_base(ctx, base):
-    """Unmodified case. Returns True when the signer certificate is reported (faults are then non-trivial)."""
-    cfg = base.cfg
-    case = dict(apk=base.apk(), sig_name=base.sig_name, positive=True, allowed=list(base.signer_certs),
-                family='none', tag=tag_of(base), desc='unmodified ' + cfg_key(cfg))
+def run_base(ctx, multi, sdks=SDK_ALL):
+    """Unmodified case. Returns True when every signer certificate is reported (faults are then non-trivial)."""
+    cfg = multi.cfg
+    case = dict(apk=multi.apk(), blocks=[dict(sig_name=b.sig_name, intact=True, allowed=list(b.signer_certs)) for b in multi.blocks],
+                sdk=list(sdks), positive=True, family='none', tag=multi.tag(), desc='unmodified ' + cfg_key(cfg))
     before = sum(ctx.fail_counts.values())
     evaluate(ctx, case)
     ok = sum(ctx.fail_counts.values()) == before
-    ctx.case(nontrivial=True, key=('base', cfg_key(cfg)),
-             labels=['unmodified', 'kind:' + cfg['signers'][0][0], 'digest:' + cfg['signers'][0][2],
-                     'attrs:' + cfg['signers'][0][3], 'signers:%d' % len(cfg['signers']),
-                     'minSdk:' + ('absent' if cfg['min_sdk'] is None else '<24' if cfg['min_sdk'] < 24 else '>=24')],
-             sample={'config': cfg_key(cfg), 'apk_bytes': len(case['apk']), 'sf_bytes': len(base.sf), 'fault': None})
+    ctx.case(nontrivial=True, key=('base', cfg_key(cfg)), labels=['unmodified'] + _labels_of(multi),
+             sample={'config': cfg_key(cfg), 'apk_bytes': len(case['apk']), 'sf_bytes': len(multi.blocks[0].sf), 'fault': None})
     return ok
 
 
-def run_fault(ctx, base, fault, base_ok, full):
+def run_fault(ctx, multi, j, fault, base_ok, full, sdks=SDK_ALL):
+    """fault applied to the files of signature file pair j; every other pair stays as signed."""
     fam, descr, sf, parts, certs, broken = fault
-    cfg = base.cfg
-    allowed = [c for i, c in enumerate(base.signer_certs) if i not in broken]
-    case = dict(apk=base.apk(sf, parts, certs), sig_name=base.sig_name, positive=False, allowed=allowed, family=fam,
-                tag=tag_of(base), desc='%s %r on %s' % (fam, descr, cfg_key(cfg)))
-    ctx.case(nontrivial=base_ok, key=(cfg_key(cfg), fam, descr),
-             labels=['fault:' + fam, 'fault-kind:' + cfg['signers'][0][0], 'fault-signers:%d' % len(cfg['signers'])],
-             sample={'config': cfg_key(cfg), 'fault': fam, 'descr': list(descr), 'apk_bytes': len(case['apk'])})
+    cfg = multi.cfg
+    blocks = []
+    for i, b in enumerate(multi.blocks):
+        if i == j:
+            blocks.append(dict(sig_name=b.sig_name, intact=False, allowed=[c for k, c in enumerate(b.signer_certs) if k not in broken]))
+        else:
+            blocks.append(dict(sig_name=b.sig_name, intact=True, allowed=list(b.signer_certs)))
+    target = multi.blocks[j]
+    case = dict(apk=multi.apk(j, sf, parts, certs), blocks=blocks, sdk=list(sdks), positive=False, family=fam, tag=multi.tag(j),
+                desc='%s %r on %s of %s' % (fam, descr, target.sf_name if sf is not None and parts is None else target.sig_name,
+                                            cfg_key(cfg)))
+    fk = target.cfg['signers'][0][0]
+    ctx.case(nontrivial=base_ok, key=(cfg_key(cfg), j, fam, descr),
+             labels=['fault:' + fam, 'fault-kind:' + fk, 'fault-signers:%d' % len(target.cfg['signers']),
+                     'fault-files:%d' % len(multi.blocks)] + sorted({'fault-' + (_sdk_tag(s)[1:] or 'sdk:default') for s in sdks}),
+             sample={'config': cfg_key(cfg), 'file': target.sig_name, 'fault': fam, 'descr': list(descr),
+                     'apk_bytes': len(case['apk'])})
     evaluate(ctx, case, full)
 
 
@@ -329,10 +515,14 @@ def _signer(kind=None):
 
 
 NAME_CHARS = 'ABCDEFGHIJKLMNOPQRSTUVWXYZabcdefghijklmnopqrstuvwxyz0123456789_-'
+# a base name = 1-3 segments joined by dots; no segment spells an extension of the signing convention
+SEGMENT = st.text(NAME_CHARS, min_size=1, max_size=6).filter(lambda s: s.upper() not in ('SF', 'RSA', 'DSA', 'EC', 'MF'))
+BASE_NAME = st.lists(SEGMENT, min_size=1, max_size=3).map('.'.join)
+SDK_VALUE = st.one_of(st.just(DEFAULT), st.none(), st.sampled_from(SDK_LOW + SDK_HIGH[:2]), st.integers(1, 36))
 
 
 @st.composite
-def drawn_case(draw):
+def drawn_file(draw, base):
     s0 = draw(_signer())
     signers = [(s0[0], 'a', s0[1], s0[2])]
     if draw(st.booleans()):
@@ -342,19 +532,44 @@ def drawn_case(draw):
         signers.append((s1[0], who, s1[1], s1[2]))
     if draw(st.booleans()) and len(signers) == 2:
         signers.reverse()      # the first signer may be the 'b' key as well
-    cfg = dict(signers=signers, min_sdk=draw(st.one_of(st.none(), st.integers(1, 36))), rsa_generic=draw(st.booleans()),
-               deflate=draw(st.booleans()), base=draw(st.text(NAME_CHARS, min_size=1, max_size=8)),
+    return dict(signers=signers, base=base, rsa_generic=draw(st.booleans()),
+                sf_by=draw(st.one_of(st.none(), st.text(NAME_CHARS + ' .()', min_size=1, max_size=12).map(lambda s: s.strip() or 'y'))))
+
+
+@st.composite
+def drawn_case(draw):
+    base = draw(BASE_NAME)
+    names = [base]
+    for _ in range(draw(st.sampled_from([0, 0, 1, 1, 2]))):
+        rel = draw(st.sampled_from(['free', 'extend', 'prefix']))
+        ref = draw(st.sampled_from(names))
+        if rel == 'extend':
+            new = ref + '.' + draw(SEGMENT)
+        elif rel == 'prefix' and '.' in ref:
+            segs = ref.split('.')
+            new = '.'.join(segs[:draw(st.integers(1, len(segs) - 1))])
+        else:
+            new = draw(BASE_NAME)
+        if new.upper() not in [n.upper() for n in names]:
+            names.append(new)
+    names = draw(st.permutations(names))
+    files = [draw(drawn_file(n)) for n in names]
+    cfg = dict(files=files, min_sdk=draw(st.one_of(st.none(), st.integers(1, 36))), deflate=draw(st.booleans()),
                created_by=draw(st.text(NAME_CHARS + ' .()', min_size=1, max_size=20)).strip() or 'x',
                extra=draw(st.lists(st.tuples(st.sampled_from(['classes.dex', 'res/a.bin', 'assets/x.txt', 'lib/l.so']),
-                                             st.binary(max_size=24)), max_size=2, unique_by=lambda t: t[0])))
-    fam = draw(st.sampled_from(['sf-byte', 'sig-byte', 'semantic', 'semantic']))
-    return cfg, fam, draw(st.integers(0, 10 ** 6)), draw(st.integers(1, 255)), draw(st.integers(0, 10 ** 6))
+                                             st.binary(max_size=24)), max_size=2, unique_by=lambda t: t[0])),
+               order=draw(st.integers(0, 3)))
+    fam = draw(st.sampled_from(['sf-byte', 'sf-byte', 'sig-byte', 'semantic', 'semantic']))
+    sdks = draw(st.lists(SDK_VALUE, min_size=1, max_size=3, unique_by=repr))
+    return (cfg, fam, draw(st.integers(0, 10 ** 6)), draw(st.integers(1, 255)), draw(st.integers(0, 10 ** 6)),
+            draw(st.integers(0, len(files) - 1)), sdks)
 
 
 def hyp_fn(ctx, v):
-    cfg, fam, posr, mask, pick = v
-    base = Base(cfg)
-    ok = run_base(ctx, base)
+    cfg, fam, posr, mask, pick, j, sdks = v
+    multi = Multi(cfg)
+    ok = run_base(ctx, multi, sdks)
+    base = multi.blocks[j]
     n = len(base.parts)
     if fam == 'sf-byte':
         pos = posr % len(base.sf)
@@ -367,14 +582,14 @@ def hyp_fn(ctx, v):
     else:
         fs = list(semantic_faults(base))
         f = fs[pick % len(fs)]
-    run_fault(ctx, base, f, ok, True)
+    run_fault(ctx, multi, j, f, ok, True, sdks)
 
 
 # -- check interface -----------------------------------------------------------------------------
 
 def shards(tier, seed):
-    n = len(configs())
-    sh = [('enum', i) for i in range(n)]
+    sh = [('enum', i) for i in range(len(configs()))]
+    sh += [('multi', i) for i in range(len(multi_configs()))]
     sh += [('hyp', k) for k in range(4 if tier == 'quick' else 12)]
     return sh
 
@@ -383,11 +598,27 @@ def run_shard(ctx, shard):
     if shard[0] == 'hyp':
         hyp_collect(ctx, drawn_case(), hyp_fn, 150 if ctx.tier == 'quick' else 1500, salt=shard[1], shrink_examples=60)
         return
+    thorough = ctx.tier == 'thorough'
+    if shard[0] == 'multi':
+        cfg = multi_configs()[shard[1]]
+        multi = Multi(cfg)
+        ok = run_base(ctx, multi)
+        i = shard[1]
+        for j, base in enumerate(multi.blocks):
+            for f in semantic_faults(base):
+                run_fault(ctx, multi, j, f, ok, True)
+            # the pairing of block and .SF does not depend on the position: sample the positions
+            for f in byte_faults(base, lambda pos: (1 << (pos % 8),),
+                                 sf_step=1 if thorough else 6, sig_step=1 if thorough else 13):
+                i += 1
+                run_fault(ctx, multi, j, f, ok, i % 4 == 0, SDK_ALL if thorough else sdk_rot(i))
+        return
     cfg = configs()[shard[1]]
-    base = Base(cfg)
-    ok = run_base(ctx, base)
-    two = len(cfg['signers']) == 2
-    if ctx.tier == 'thorough':
+    multi = Multi(cfg)
+    base = multi.blocks[0]
+    ok = run_base(ctx, multi)
+    two = len(base.parts) == 2
+    if thorough:
         def masks_for(pos):
             return MASKS_THOROUGH
     elif two:
@@ -397,15 +628,18 @@ def run_shard(ctx, shard):
         def masks_for(pos):
             return MASKS1_QUICK
     for f in semantic_faults(base):
-        run_fault(ctx, base, f, ok, True)
+        run_fault(ctx, multi, 0, f, ok, True)
+    i = shard[1]
     for f in byte_faults(base, masks_for):
         pos = f[1][-2]
-        run_fault(ctx, base, f, ok, pos % 5 == 0)
+        i += 1
+        run_fault(ctx, multi, 0, f, ok, pos % 5 == 0, SDK_ALL if thorough else sdk_rot(i))
 
 
 def replay(ctx, case):
     case = dict(case)
-    case.setdefault('allowed', [])
+    if 'blocks' not in case:
+        case.setdefault('allowed', [])
     evaluate(ctx, case, True)
 
 
